@@ -1,44 +1,782 @@
 package sim
 
 import (
+	"encoding/hex"
 	"fmt"
 	"math/big"
+	"sort"
+
+	disputetypes "github.com/tellor-io/layer/x/dispute/types"
+
+	"cosmossdk.io/collections"
+	"cosmossdk.io/math"
+
+	sdk "github.com/cosmos/cosmos-sdk/types"
+	govv1 "github.com/cosmos/cosmos-sdk/x/gov/types/v1"
 )
 
 // registerMoreOps adds the dispute / bridge / governance / adversarial operations.
 func registerMoreOps(w *Workload) {
+	w.ops["propose_dispute"] = w.opProposeDispute
+	w.ops["add_fee"] = w.opAddFee
+	w.ops["vote"] = w.opVote
+	w.ops["withdraw_fee_refund"] = w.opWithdrawFeeRefund
+	w.ops["claim_reward"] = w.opClaimReward
+	w.ops["add_evidence"] = w.opAddEvidence
+	w.ops["update_team"] = w.opUpdateTeam
+	w.ops["request_attestations"] = w.opRequestAttestations
+	w.ops["withdraw_tokens"] = w.opWithdrawTokens
+	w.ops["claim_deposits"] = w.opClaimDeposits
+	w.ops["deposit_report"] = w.opDepositReport
+	w.ops["register_spec"] = w.opRegisterSpec
+	w.ops["gov_proposal"] = w.opGovProposal
+	w.ops["gov_vote"] = w.opGovVote
+	w.ops["privileged_direct"] = w.opPrivilegedDirect
+	w.ops["multi"] = w.opMulti
+	w.ops["wrong_signer"] = w.opWrongSigner
+	w.ops["create_validator"] = w.opCreateValidator
+	w.ops["unjail_validator"] = w.opUnjailValidator
+	w.ops["cancel_unbonding"] = w.opCancelUnbonding
+	w.ops["tie_reports"] = w.opTieReport
 }
+
+// ---------------------------------------------------------------- views used by the workload
+
+type DisputeInfo struct {
+	D disputetypes.Dispute
+	V *disputetypes.Vote
+}
+
+func (v *View) Disputes() []DisputeInfo {
+	var out []DisputeInfo
+	_ = v.n.App.DisputeKeeper.Disputes.Walk(v.ctx, nil, func(id uint64, d disputetypes.Dispute) (bool, error) {
+		di := DisputeInfo{D: d}
+		if vt, err := v.n.App.DisputeKeeper.Votes.Get(v.ctx, id); err == nil {
+			di.V = &vt
+		}
+		out = append(out, di)
+		return false, nil
+	})
+	return out
+}
+
+type PayerInfoRec struct {
+	ID    uint64
+	Payer sdk.AccAddress
+	Info  disputetypes.PayerInfo
+}
+
+func (v *View) FeePayers() []PayerInfoRec {
+	var out []PayerInfoRec
+	_ = v.n.App.DisputeKeeper.DisputeFeePayer.Walk(v.ctx, nil, func(k collections.Pair[uint64, []byte], p disputetypes.PayerInfo) (bool, error) {
+		out = append(out, PayerInfoRec{ID: k.K1(), Payer: sdk.AccAddress(append([]byte{}, k.K2()...)), Info: p})
+		return false, nil
+	})
+	return out
+}
+
+type VoterRec struct {
+	ID    uint64
+	Voter sdk.AccAddress
+	Rec   disputetypes.Voter
+}
+
+func (v *View) Voters() []VoterRec {
+	var out []VoterRec
+	_ = v.n.App.DisputeKeeper.Voter.Walk(v.ctx, nil, func(k collections.Pair[uint64, []byte], p disputetypes.Voter) (bool, error) {
+		out = append(out, VoterRec{ID: k.K1(), Voter: sdk.AccAddress(append([]byte{}, k.K2()...)), Rec: p})
+		return false, nil
+	})
+	return out
+}
+
+func (v *View) TeamAddr() sdk.AccAddress {
+	p, err := v.n.App.DisputeKeeper.Params.Get(v.ctx)
+	if err != nil {
+		return nil
+	}
+	return sdk.AccAddress(p.TeamAddress)
+}
+
+// ---------------------------------------------------------------- aims
 
 // refreshAims recomputes the instants (unix ms) that the clock fault likes to hit.
 func (w *Workload) refreshAims() {
-	w.g.TimeAims = w.g.TimeAims[:0]
-	if exp, ok := w.trackerExpiry(); ok {
-		w.g.TimeAims = append(w.g.TimeAims, exp)
+	g := w.g
+	g.TimeAims = g.TimeAims[:0]
+	if _, exp := w.v.TrackerAmount(); exp > 0 {
+		g.TimeAims = append(g.TimeAims, exp)
+	}
+	for _, d := range w.v.Disputes() {
+		if d.D.Open || d.D.PendingExecution {
+			g.TimeAims = append(g.TimeAims, d.D.DisputeEndTime.UnixMilli())
+			if d.V != nil {
+				g.TimeAims = append(g.TimeAims, d.V.VoteEnd.UnixMilli())
+			}
+		}
+	}
+	for _, rp := range w.v.Reporters() {
+		if rp.Rec.Jailed {
+			g.TimeAims = append(g.TimeAims, rp.Rec.JailedUntil.UnixMilli())
+		}
+	}
+	// 12 h after deposit aggregates (claim boundary)
+	for _, a := range w.v.Aggregates() {
+		for _, id := range w.depositIDs {
+			if eqBytes(a.QueryID, QueryID(BridgeQueryData(true, id))) {
+				g.TimeAims = append(g.TimeAims, int64(a.TsMs)+12*3600_000)
+			}
+		}
+	}
+	if len(g.TimeAims) > 40 {
+		g.TimeAims = g.TimeAims[len(g.TimeAims)-40:]
 	}
 }
 
-func (w *Workload) trackerExpiry() (int64, bool) {
-	_, exp := w.v.TrackerAmount()
-	return exp, exp > 0
-}
+// ---------------------------------------------------------------- registry / custom specs
 
 func (w *Workload) customQuery(typ string) string {
 	return "typ:" + typ + ":" + fmt.Sprintf("%x", AbiEncode(AbiString("a")))
 }
 
 func (w *Workload) customValue(q string) string {
+	// all custom specs of the workload use word-sized response types
+	switch w.r.Intn(4) {
+	case 0:
+		return fmt.Sprintf("%064x", 1)
+	case 1:
+		return fmt.Sprintf("%064x", 2)
+	}
 	return fmt.Sprintf("%064x", w.r.Intn(5))
 }
 
-// depositValue encodes (address recipient, string layerRecipient, uint256 amount, uint256 tip).
-func (w *Workload) depositValue(q string) string {
-	r := w.r
-	to := w.acc().Addr(r.Intn(len(w.acc().Actors))).String()
-	amt := new(big.Int).Mul(big.NewInt(r.LogUniform(1, 1_000_000_000)), big.NewInt(1_000_000_000_000))
-	tip := new(big.Int).Mul(big.NewInt(r.LogUniform(1, 1_000_000)), big.NewInt(1_000_000_000_000))
-	if r.Chance(0.5) {
-		tip = big.NewInt(0)
+func (w *Workload) opRegisterSpec(h int64) (*Intent, bool) {
+	a, ok := w.freeActor(false)
+	if !ok {
+		return nil, false
 	}
-	// few distinct values per deposit so that reporters agree
+	r := w.r
+	w.uniq++
+	name := Pick(r, []string{"Mode", "Median", "Custom"}) + fmt.Sprint(w.uniq%5)
+	if r.Chance(0.15) {
+		name = Pick(r, []string{"SpotPrice", "spotprice", "SPOTPRICE", "TRBBridge", "trbbridge"}) // re-registration attempts (C19)
+	}
+	vt := Pick(r, []string{"uint256", "uint256", "uint256", "bytes32", "bool", "address", "int256", "string", "bytes", "uint256[]", "uint8"})
+	method := Pick(r, []string{"weighted-median", "weighted-mode", "weighted-mode", "Weighted-Median", "average"})
+	if w.g.Avoid && method != "weighted-mode" {
+		// known finding class: non-numeric response types under the median; keep numeric
+		vt = "uint256"
+	}
+	win := uint64(r.Range(0, 6))
+	spec := &SpecSpec{ValueType: vt, Method: method, Window: win, Fields: []string{"string"}}
+	found := false
+	for _, t := range w.specTypes {
+		if t == name {
+			found = true
+		}
+	}
+	if !found && name != "SpotPrice" && name != "TRBBridge" && len(name) > 0 && (vt == "uint256" || vt == "bytes32" || vt == "uint8" || vt == "int256") {
+		w.specTypes = append(w.specTypes, name)
+	}
+	return w.newIntent(a, MsgSpec{K: "register_spec", S: name, Spec: spec}), true
+}
+
+// ---------------------------------------------------------------- bridge
+
+func (w *Workload) depositValueFor(id uint64, variant int) string {
+	// deterministic per (id, variant) so that several reporters can agree on a value
+	to := w.acc().Addr(int(id+uint64(variant)) % len(w.acc().Actors)).String()
+	amtUnits := []int64{1, 5, 1_000_000, 123_456_789, 999_999_999_999, 1}[int(id)%6]
+	amt := new(big.Int).Mul(big.NewInt(amtUnits*int64(variant+1)), big.NewInt(1_000_000_000_000))
+	tip := new(big.Int).Mul(big.NewInt(int64(variant)*1000), big.NewInt(1_000_000_000_000))
+	if !w.g.Avoid {
+		switch (int(id) + variant) % 9 {
+		case 3:
+			tip = new(big.Int).Add(amt, big.NewInt(1_000_000_000_000)) // tip greater than amount
+		case 4:
+			amt = new(big.Int).Lsh(big.NewInt(1), 63+40) // >= 2^63 * 1e12-ish
+		case 5:
+			to = "not-a-bech32"
+		case 6:
+			amt = big.NewInt(999_999_999_999) // rounds to zero
+		}
+	}
 	return fmt.Sprintf("%x", AbiEncode(AbiAddress(make([]byte, 20)), AbiString(to), AbiUint(amt), AbiUint(tip)))
+}
+
+func (w *Workload) depositValue(q string) string {
+	var id uint64
+	fmt.Sscanf(q, "dep:%d", &id)
+	v := 0
+	if w.r.Chance(0.25) {
+		v = 1 + w.r.Intn(2)
+	}
+	val := w.depositValueFor(id, v)
+	if !w.g.Avoid && w.r.Chance(0.05) {
+		return val[:len(val)-8] // malformed encoding
+	}
+	return val
+}
+
+func (w *Workload) opDepositReport(h int64) (*Intent, bool) {
+	reps := w.v.Reporters()
+	if len(reps) == 0 {
+		return nil, false
+	}
+	id := uint64(w.r.Range(1, 5))
+	for _, i := range w.r.Perm(len(reps)) {
+		if w.usable(reps[i].Actor) {
+			found := false
+			for _, x := range w.depositIDs {
+				if x == id {
+					found = true
+				}
+			}
+			if !found {
+				w.depositIDs = append(w.depositIDs, id)
+			}
+			q := fmt.Sprintf("dep:%d", id)
+			return w.newIntent(reps[i].Actor, MsgSpec{K: "submit_value", Q: q, V: w.depositValue(q)}), true
+		}
+	}
+	return nil, false
+}
+
+func (w *Workload) opClaimDeposits(h int64) (*Intent, bool) {
+	a, ok := w.freeActor(false)
+	if !ok {
+		return nil, false
+	}
+	r := w.r
+	n := 1
+	if r.Chance(0.3) {
+		n = 2 + r.Intn(2)
+	}
+	var ids, idx []uint64
+	for i := 0; i < n; i++ {
+		id := uint64(r.Range(1, 5))
+		if len(w.depositIDs) > 0 && r.Chance(0.8) {
+			id = Pick(r, w.depositIDs)
+		}
+		if i > 0 && r.Chance(0.3) {
+			id = ids[0] // same id twice in one message
+		}
+		ids = append(ids, id)
+		idx = append(idx, uint64(r.Intn(3)))
+	}
+	if r.Chance(0.05) {
+		idx = idx[:len(idx)-1] // length mismatch
+	}
+	return w.newIntent(a, MsgSpec{K: "claim_deposits", Ids: ids, Ids2: idx}), true
+}
+
+func (w *Workload) opWithdrawTokens(h int64) (*Intent, bool) {
+	a, ok := w.freeActor(false)
+	if !ok {
+		return nil, false
+	}
+	bal := w.v.Balance(w.acc().Addr(a))
+	rcp := Pick(w.r, []string{"3386518f7ab3eb51591571adbe62cf94540ead29", "3386518F7AB3EB51591571ADBE62CF94540EAD29", "00", "", "zz", "0x3386518f7ab3eb51591571adbe62cf94540ead29",
+		"3386518f7ab3eb51591571adbe62cf94540ead293386518f7ab3eb51591571adbe62cf94540ead29", "3386518f7ab3eb51591571adbe62cf94540ead29"})
+	return w.newIntent(a, MsgSpec{K: "withdraw_tokens", S: rcp, N: w.amount(bal.QuoRaw(5))}), true
+}
+
+func (w *Workload) opRequestAttestations(h int64) (*Intent, bool) {
+	a, ok := w.freeActor(false)
+	if !ok {
+		return nil, false
+	}
+	aggs := w.v.Aggregates()
+	r := w.r
+	if len(aggs) > 0 && r.Chance(0.85) {
+		ag := Pick(r, aggs)
+		ts := ag.TsMs
+		switch r.Intn(10) {
+		case 0:
+			ts++
+		case 1:
+			ts--
+		}
+		qid := hex.EncodeToString(ag.QueryID)
+		if r.Chance(0.1) {
+			qid = "0x" + qid
+		}
+		return w.newIntent(a, MsgSpec{K: "request_attestations", S: qid, V: fmt.Sprint(ts)}), true
+	}
+	return w.newIntent(a, MsgSpec{K: "request_attestations", S: Pick(r, []string{"", "zz", hex.EncodeToString(Keccak([]byte("none")))}), V: Pick(r, []string{"0", "-1", "18446744073709551615", "abc", "1700000000000"})}), true
+}
+
+// ---------------------------------------------------------------- disputes
+
+func (w *Workload) reportSpecOf(ri ReportInfo) *ReportSpec {
+	return &ReportSpec{Reporter: w.acc().ActorByAddr(ri.Reporter), Power: ri.Rep.Power, QueryType: ri.Rep.QueryType, Q: "", Method: ri.Rep.AggregateMethod,
+		Value: ri.Rep.Value, TimeNs: ri.Rep.Timestamp.UnixNano(), Cyclelist: ri.Rep.Cyclelist, Block: ri.Rep.BlockNumber}
+}
+
+// queryNameByID finds a name whose query data hashes to the id (the workload only disputes queries it can name).
+func (w *Workload) queryNameByID(qid []byte) (string, bool) {
+	for _, q := range w.v.Queries() {
+		if eqBytes(q.QueryID, qid) {
+			return "raw:" + hex.EncodeToString(q.Meta.QueryData), true
+		}
+	}
+	for _, n := range spotNames {
+		if eqBytes(QueryID(QueryDataOf("spot:"+n)), qid) {
+			return "spot:" + n, true
+		}
+	}
+	for id := uint64(0); id < 8; id++ {
+		if eqBytes(QueryID(BridgeQueryData(true, id)), qid) {
+			return fmt.Sprintf("dep:%d", id), true
+		}
+	}
+	for _, t := range w.specTypes {
+		if eqBytes(QueryID(QueryDataOf(w.customQuery(t))), qid) {
+			return w.customQuery(t), true
+		}
+	}
+	return "", false
+}
+
+func (w *Workload) opProposeDispute(h int64) (*Intent, bool) {
+	reps := w.v.Reports()
+	if len(reps) == 0 {
+		return nil, false
+	}
+	a, ok := w.freeActor(false)
+	if !ok {
+		return nil, false
+	}
+	r := w.r
+	ri := Pick(r, reps)
+	name, ok := w.queryNameByID(ri.QueryID)
+	if !ok {
+		return nil, false
+	}
+	rs := w.reportSpecOf(ri)
+	rs.Q = name
+	note := "real"
+	if r.Chance(0.25) {
+		// altered or invented report (C11: must be rejected)
+		switch r.Intn(6) {
+		case 0:
+			rs.Power = rs.Power*3 + 1
+			note = "altered-power"
+		case 1:
+			rs.Value = fmt.Sprintf("%064x", 424242)
+			note = "altered-value"
+		case 2:
+			rs.Block = rs.Block + 1
+			note = "altered-block"
+		case 3:
+			rs.Q = "spot:" + Pick(r, spotNames)
+			note = "altered-query"
+		case 4:
+			rs.Reporter = r.Intn(len(w.acc().Actors))
+			note = "altered-reporter"
+		default:
+			rs.Power = uint64(r.Range(1, 5))
+			if rs.Power == ri.Rep.Power {
+				rs.Power++
+			}
+			note = "altered-power"
+		}
+	}
+	cat := int32(r.Range(1, 3))
+	if r.Chance(0.03) {
+		cat = Pick(r, []int32{0, 4, -1})
+	}
+	// the fee: category share of power*1e6
+	pct := map[int32]int64{1: 1, 2: 5, 3: 100}[cat]
+	full := new(big.Int).Mul(new(big.Int).SetUint64(rs.Power), big.NewInt(1_000_000))
+	full.Mul(full, big.NewInt(pct)).Div(full, big.NewInt(100))
+	fee := new(big.Int).Set(full)
+	switch r.Intn(6) {
+	case 0:
+		fee.Div(fee, big.NewInt(2)) // partial
+	case 1:
+		fee.Div(fee, big.NewInt(3))
+	case 2:
+		fee.Add(fee, big.NewInt(12345)) // over-payment is capped
+	case 3:
+		fee.SetInt64(r.Range(1, 20_000)) // around the 10 000 minimum
+	}
+	fromBond := r.Chance(0.25)
+	in := w.newIntent(a, MsgSpec{K: "propose_dispute", Rep: rs, E: cat, N: fee.String(), B: fromBond})
+	in.Note = note
+	return in, true
+}
+
+func (w *Workload) opAddFee(h int64) (*Intent, bool) {
+	ds := w.v.Disputes()
+	a, ok := w.freeActor(false)
+	if !ok {
+		return nil, false
+	}
+	r := w.r
+	var open []DisputeInfo
+	for _, d := range ds {
+		if d.D.DisputeStatus == disputetypes.Prevote && d.D.Open {
+			open = append(open, d)
+		}
+	}
+	if len(open) == 0 {
+		if len(ds) == 0 || !r.Chance(0.1) {
+			return nil, false
+		}
+		open = ds
+	}
+	d := Pick(r, open)
+	missing := d.D.SlashAmount.Sub(d.D.FeeTotal)
+	var amt math.Int
+	switch r.Intn(5) {
+	case 0:
+		amt = missing.QuoRaw(2)
+	case 1:
+		amt = missing.AddRaw(777)
+	case 2:
+		amt = math.NewInt(r.Range(0, 1000))
+	default:
+		amt = missing
+	}
+	// sometimes the same payer pays again (C13: repeated payments)
+	if r.Chance(0.3) {
+		for _, p := range w.v.FeePayers() {
+			if p.ID == d.D.DisputeId {
+				if pa := w.acc().ActorByAddr(p.Payer); w.usable(pa) {
+					a = pa
+				}
+			}
+		}
+	}
+	return w.newIntent(a, MsgSpec{K: "add_fee", U: d.D.DisputeId, N: amt.String(), B: r.Chance(0.2)}), true
+}
+
+func (w *Workload) opVote(h int64) (*Intent, bool) {
+	ds := w.v.Disputes()
+	var voting []DisputeInfo
+	for _, d := range ds {
+		if d.D.DisputeStatus == disputetypes.Voting {
+			voting = append(voting, d)
+		}
+	}
+	r := w.r
+	if len(voting) == 0 {
+		if len(ds) == 0 || !r.Chance(0.05) {
+			return nil, false
+		}
+		voting = ds
+	}
+	d := Pick(r, voting)
+	// prefer interesting voters: team, reporters, selectors, tippers
+	var a int
+	ok := false
+	if r.Chance(0.25) {
+		a = w.acc().ActorByAddr(w.v.TeamAddr())
+		ok = w.usable(a)
+	}
+	if !ok && r.Chance(0.5) {
+		sels := w.v.Selectors()
+		if len(sels) > 0 {
+			a = Pick(r, sels).Actor
+			ok = w.usable(a)
+		}
+	}
+	if !ok {
+		a, ok = w.freeActor(r.Chance(0.1))
+	}
+	if !ok {
+		return nil, false
+	}
+	choice := int32(r.Intn(3))
+	if r.Chance(0.02) {
+		choice = 7
+	}
+	return w.newIntent(a, MsgSpec{K: "vote", U: d.D.DisputeId, E: choice}), true
+}
+
+func (w *Workload) opWithdrawFeeRefund(h int64) (*Intent, bool) {
+	ps := w.v.FeePayers()
+	a, ok := w.freeActor(false)
+	if !ok {
+		return nil, false
+	}
+	if len(ps) == 0 {
+		return nil, false
+	}
+	p := Pick(w.r, ps)
+	id := p.ID
+	if w.r.Chance(0.1) {
+		id = uint64(w.r.Range(0, 6))
+	}
+	return w.newIntent(a, MsgSpec{K: "withdraw_fee_refund", U: id, T: w.acc().ActorByAddr(p.Payer)}), true
+}
+
+func (w *Workload) opClaimReward(h int64) (*Intent, bool) {
+	vs := w.v.Voters()
+	if len(vs) == 0 {
+		return nil, false
+	}
+	for _, i := range w.r.Perm(len(vs)) {
+		a := w.acc().ActorByAddr(vs[i].Voter)
+		if w.usable(a) {
+			id := vs[i].ID
+			// later rounds: claim on the latest round id of the dispute
+			for _, d := range w.v.Disputes() {
+				for _, pid := range d.D.PrevDisputeIds {
+					if pid == id && w.r.Chance(0.7) {
+						id = d.D.DisputeId
+					}
+				}
+			}
+			return w.newIntent(a, MsgSpec{K: "claim_reward", U: id}), true
+		}
+	}
+	return nil, false
+}
+
+func (w *Workload) opAddEvidence(h int64) (*Intent, bool) {
+	ds := w.v.Disputes()
+	reps := w.v.Reports()
+	if len(ds) == 0 || len(reps) == 0 {
+		return nil, false
+	}
+	a, ok := w.freeActor(false)
+	if !ok {
+		return nil, false
+	}
+	d := Pick(w.r, ds)
+	var rs []ReportSpec
+	for i := 0; i < 1+w.r.Intn(2); i++ {
+		ri := Pick(w.r, reps)
+		name, ok := w.queryNameByID(ri.QueryID)
+		if !ok {
+			continue
+		}
+		s := w.reportSpecOf(ri)
+		s.Q = name
+		rs = append(rs, *s)
+	}
+	if len(rs) == 0 {
+		return nil, false
+	}
+	return w.newIntent(a, MsgSpec{K: "add_evidence", U: d.D.DisputeId, Reps: rs}), true
+}
+
+func (w *Workload) opUpdateTeam(h int64) (*Intent, bool) {
+	team := w.acc().ActorByAddr(w.v.TeamAddr())
+	if w.r.Chance(0.5) && w.usable(team) {
+		return w.newIntent(team, MsgSpec{K: "update_team", T: w.r.Intn(len(w.acc().Actors))}), true
+	}
+	a, ok := w.freeActor(false)
+	if !ok {
+		return nil, false
+	}
+	// non-team signer; sometimes names the real team in the message body (signer mismatch -> ante rejects)
+	m := MsgSpec{K: "update_team", T: a}
+	if w.r.Chance(0.5) && team >= 0 {
+		m.As = &team
+	}
+	return w.newIntent(a, m), true
+}
+
+// ---------------------------------------------------------------- governance
+
+func (w *Workload) privilegedMsg() MsgSpec {
+	r := w.r
+	switch r.Intn(7) {
+	case 0:
+		return MsgSpec{K: "mint_init"}
+	case 1:
+		return MsgSpec{K: "update_snapshot_limit", U: Pick(r, []uint64{0, 1, 2, 5, 1000})}
+	case 2:
+		// cycle list: shorter, longer, reordered, sometimes empty
+		n := int(r.Range(0, 5))
+		if w.g.Avoid && n < len(w.g.C.Cfg.CycleList) {
+			n = len(w.g.C.Cfg.CycleList) + r.Intn(2)
+		}
+		var qs []string
+		for _, i := range r.Perm(len(spotNames)) {
+			if len(qs) < n {
+				qs = append(qs, "spot:"+spotNames[i])
+			}
+		}
+		return MsgSpec{K: "update_cyclelist", Qs: qs}
+	case 3:
+		return MsgSpec{K: "oracle_update_params", N: Pick(r, []string{"1000000", "2000000", "1", "0"})}
+	case 4:
+		return MsgSpec{K: "reporter_update_params", N: Pick(r, []string{"1000000", "2000000"}), U: Pick(r, []uint64{1, 2, 5, 100})}
+	default:
+		win := uint64(r.Range(0, 8))
+		return MsgSpec{K: "update_dataspec", S: Pick(r, []string{"SpotPrice", "spotprice", "TRBBridge", "nosuch"}), Spec: &SpecSpec{ValueType: "uint256", Method: "weighted-median", Window: win, Fields: []string{"string", "string"}}}
+	}
+}
+
+func (w *Workload) opGovProposal(h int64) (*Intent, bool) {
+	a, ok := w.freeActor(false)
+	if !ok {
+		return nil, false
+	}
+	if w.v.Balance(w.acc().Addr(a)).LT(math.NewInt(60_000_000)) {
+		return nil, false
+	}
+	w.govProposed++
+	return w.newIntent(a, MsgSpec{K: "gov_submit", Inner: []MsgSpec{w.privilegedMsg()}, N: Pick(w.r, []string{"10000000", "10000000", "50000000"}), B: false}), true
+}
+
+func (w *Workload) opGovVote(h int64) (*Intent, bool) {
+	// validators' operators vote yes on everything in voting period
+	var props []uint64
+	_ = w.v.n.App.GovKeeper.Proposals.Walk(w.v.ctx, nil, func(id uint64, p govv1.Proposal) (bool, error) {
+		if p.Status == govv1.StatusVotingPeriod {
+			props = append(props, id)
+		}
+		return false, nil
+	})
+	if len(props) == 0 {
+		return nil, false
+	}
+	for _, i := range w.r.Perm(w.acc().NumOps()) {
+		if !w.usable(i) {
+			continue
+		}
+		id := Pick(w.r, props)
+		if _, err := w.v.n.App.GovKeeper.Votes.Get(w.v.ctx, collections.Join(id, w.acc().Addr(i))); err == nil {
+			continue
+		}
+		opt := int32(govv1.OptionYes)
+		if w.r.Chance(0.1) {
+			opt = int32(govv1.OptionNo)
+		}
+		return w.newIntent(i, MsgSpec{K: "gov_vote", U: id, E: opt}), true
+	}
+	return nil, false
+}
+
+// opPrivilegedDirect: a privileged message sent by an ordinary account (must be rejected).
+func (w *Workload) opPrivilegedDirect(h int64) (*Intent, bool) {
+	a, ok := w.freeActor(false)
+	if !ok {
+		return nil, false
+	}
+	m := w.privilegedMsg()
+	return w.newIntent(a, m), true
+}
+
+// ---------------------------------------------------------------- composite / adversarial
+
+func (w *Workload) opMulti(h int64) (*Intent, bool) {
+	// several messages of one signer in one transaction (atomicity, C18 sums)
+	r := w.r
+	kinds := []string{"tip", "delegate", "undelegate", "redelegate", "send", "submit_value", "withdraw_tip", "vote", "add_fee", "delegate", "delegate", "undelegate"}
+	var first *Intent
+	n := 2 + r.Intn(4)
+	for tries := 0; tries < 20 && (first == nil || len(first.Msgs) < n); tries++ {
+		k := Pick(r, kinds)
+		in, ok := w.ops[k](h)
+		if !ok {
+			continue
+		}
+		if first == nil {
+			first = in
+			w.busy[in.Actor] = false
+			continue
+		}
+		// re-target the message to the first signer
+		m := in.Msgs[0]
+		first.Msgs = append(first.Msgs, m)
+	}
+	if first == nil || len(first.Msgs) < 2 {
+		return nil, false
+	}
+	first.Note = "multi"
+	return first, true
+}
+
+// opWrongSigner: the message names another account as its signer while the tx is signed by the attacker.
+func (w *Workload) opWrongSigner(h int64) (*Intent, bool) {
+	r := w.r
+	kinds := []string{"tip", "send", "undelegate", "select_reporter", "switch_reporter", "withdraw_tip", "withdraw_tokens", "unjail_reporter", "create_reporter"}
+	in, ok := w.ops[Pick(r, kinds)](h)
+	if !ok {
+		return nil, false
+	}
+	victim := in.Actor
+	attacker, ok := w.freeActor(false)
+	if !ok || attacker == victim {
+		return nil, false
+	}
+	for i := range in.Msgs {
+		v := victim
+		in.Msgs[i].As = &v
+	}
+	in.Actor = attacker
+	in.Note = "wrong-signer"
+	return in, true
+}
+
+func (w *Workload) opCreateValidator(h int64) (*Intent, bool) {
+	nGen := len(w.g.C.Cfg.ValStakes)
+	for i := nGen; i < w.acc().NumOps(); i++ {
+		if !w.usable(i) {
+			continue
+		}
+		if _, ok := w.v.Validator(w.acc().ValAddrOf(i)); ok {
+			continue
+		}
+		return w.newIntent(i, MsgSpec{K: "create_validator", N: w.stakeAmount(math.NewInt(40_000_000_000))}), true
+	}
+	return nil, false
+}
+
+func (w *Workload) opUnjailValidator(h int64) (*Intent, bool) {
+	for _, val := range w.v.Validators() {
+		if val.Jailed {
+			va, _ := sdk.ValAddressFromBech32(val.OperatorAddress)
+			a := w.acc().ActorByAddr(va)
+			if w.usable(a) {
+				return w.newIntent(a, MsgSpec{K: "unjail_validator"}), true
+			}
+		}
+	}
+	return nil, false
+}
+
+func (w *Workload) opCancelUnbonding(h int64) (*Intent, bool) {
+	a := w.acc()
+	for _, i := range w.r.Perm(len(a.Actors)) {
+		if !w.usable(i) {
+			continue
+		}
+		ubds, err := w.v.n.App.StakingKeeper.GetAllUnbondingDelegations(w.v.ctx, a.Actors[i].Addr)
+		if err != nil || len(ubds) == 0 {
+			continue
+		}
+		u := ubds[0]
+		if len(u.Entries) == 0 {
+			continue
+		}
+		e := u.Entries[w.r.Intn(len(u.Entries))]
+		va, _ := sdk.ValAddressFromBech32(u.ValidatorAddress)
+		return w.newIntent(i, MsgSpec{K: "cancel_unbonding", Val: a.ActorByAddr(va), N: w.stakeAmount(e.Balance), U: uint64(e.CreationHeight)}), true
+	}
+	return nil, false
+}
+
+// opTieReport: reporters with equal power report different values on a weighted-mode query (C01 tie rule).
+func (w *Workload) opTieReport(h int64) (*Intent, bool) {
+	reps := w.v.Reporters()
+	if len(reps) < 2 {
+		return nil, false
+	}
+	// use a deposit query (weighted-mode at genesis) and alternate between two values
+	id := uint64(7)
+	q := fmt.Sprintf("dep:%d", id)
+	sort.Slice(reps, func(i, j int) bool { return reps[i].Actor < reps[j].Actor })
+	for _, i := range w.r.Perm(len(reps)) {
+		if w.usable(reps[i].Actor) {
+			return w.newIntent(reps[i].Actor, MsgSpec{K: "submit_value", Q: q, V: w.depositValueFor(id, i%2)}), true
+		}
+	}
+	return nil, false
 }
